@@ -38,7 +38,7 @@ SHARDS = {'quick': 16, 'thorough': 16}
 TIMEOUT = {'quick': 1200, 'thorough': 7200}
 FLOOR = {'quick': 150, 'thorough': 1500}
 REQUIRED_MONITORS = {'schedules-executed': 100, 'context-switches-inside-monitored-code': 100,
-                     'stress-renders': 1000, 'history-renders': 500, 'M-args': 500, 'cross-process-outputs': 20}
+                     'stress-renders': 1000, 'history-renders': 500, 'loader-history-renders': 500, 'M-args': 500, 'cross-process-outputs': 20}
 RULE = ('(d) a case = one executed schedule of 2 threads over a scenario in {first (lazy) render of a fresh file template, '
         'render of an auto-reload template whose file changed before both calls, first load+render through a shared '
         'loader, load: chain}; schedules: A advanced k line-steps then B to completion (every k until A finishes, both '
@@ -159,6 +159,55 @@ def layer_cross_process(ctx):
 
 
 # --------------------------------------------------------------------------
+def layer_loader_histories(ctx, n):
+    """Render sequences through ONE shared loader: each result must equal what a fresh loader gives for that
+    call alone (nothing of one load/render may be visible in the next)."""
+    from chameleon import PageTemplateLoader
+    rng = ctx.rng
+    d = tempfile.mkdtemp(prefix='c14l_')
+    try:
+        os.makedirs(os.path.join(d, 'sub'))
+        os.makedirs(os.path.join(d, 'other'))
+        files = {
+            'part.pt': '<i>top-part ${x}</i>',
+            'sub/part.pt': '<i>sub-part ${x}</i>',
+            'other/part.pt': '<i>other-part ${x}</i>',
+            'main.pt': '<m tal:define="p load: part.pt">${structure: p(x=x)}</m>',
+            'sub/inner.pt': '<s tal:define="p load: part.pt">${structure: p(x=x)}</s>',
+            'other/leaf.pt': '<o>${x}</o>',
+            'sub/only.pt': '<only>${x}</only>',
+        }
+        for k, v in files.items():
+            write_file(os.path.join(d, k), v, 1000)
+        names = ['part.pt', 'main.pt', 'sub/inner.pt', 'other/leaf.pt', 'sub/part.pt', 'only.pt', 'sub/only.pt']
+        paths = [[d], [d, os.path.join(d, 'other')], [os.path.join(d, 'other'), d]]
+
+        def call(loader, name, x):
+            try:
+                return loader.load(name)(x=x)
+            except Exception as e:
+                return 'RAISED %s' % type(e).__name__
+        for case in range(n):
+            sp = rng.choice(paths)
+            shared = PageTemplateLoader(list(sp))
+            hist = []
+            for step in range(rng.randint(3, 8)):
+                name = rng.choice(names)
+                x = rng.randrange(4)
+                got = call(shared, name, x)
+                want = call(PageTemplateLoader(list(sp)), name, x)
+                hist.append((name, x))
+                ctx.mon('loader-history-renders')
+                if got != want:
+                    ctx.violation('shared-loader-history-differs',
+                                  'search path %r, history %r: shared loader rendered %r, a fresh loader %r' % (
+                                      [os.path.relpath(p, d) for p in sp], hist, got, want), {'kind': 'loaderhist'})
+                    break
+            ctx.case(key=('loaderhist', tuple(h[0] for h in hist), len(sp)), nontrivial=len(hist) >= 2)
+    finally:
+        shutil.rmtree(d, ignore_errors=True)
+
+
 def monitored_codes():
     import chameleon.template as T
     import chameleon.loader as L
@@ -385,6 +434,7 @@ def layer_stress(ctx, rounds):
 def run(ctx):
     monitors.install(ctx, tokalg=False)
     layer_histories(ctx, 40 if ctx.quick else 600)
+    layer_loader_histories(ctx, 25 if ctx.quick else 400)
     layer_cross_process(ctx)
     layer_stress(ctx, 3 if ctx.quick else 30)
     layer_scheduler(ctx)
